@@ -38,6 +38,7 @@ func genScenario(t *rapid.T) *modsim.Scenario {
 		}
 	}
 	sc.Steps = append(sc.Steps, modsim.Step{Op: "shutdown"})
+	sc.Delays = modsim.GenDelays(t, sc.Modules, 2)
 	return sc
 }
 
